@@ -22,7 +22,7 @@ EXPLANATION = (
     "(reported, not alarmed, unless a reviewed key gains sites).  R-C20-6 a buffer sized only under a condition is indexed only "
     "under that condition.  R-C20-7 the unwrapped edge lookups (eigenvector, Louvain, clustering) rely on `the pair came from the "
     "adjacency, so the edge is stored`: the keyed accesses to `edges`/`edges_map` in add_edge and in the crate functions whose "
-    "result is unwrapped obey the stores' canonical-key discipline (same rule as R-C02-3).  NOT decided: termination of loops (only absence of recursion is "
+    "result is unwrapped obey the stores' canonical-key discipline (same rule as R-C02-3).  R-C20-8 re-checks the premise of the reviewed Louvain unwraps: every graph to_single_edges returns has multi_edges = false.  NOT decided: termination of loops (only absence of recursion is "
     "reported), panics inside dependencies, allocation failure."
 )
 TRUSTED = ["rustc MIR construction incl. overflow/div assert terminators (extracted with -C overflow-checks=on)", "std semantics of Option/Result/HashMap/Vec"]
@@ -254,6 +254,7 @@ def run(ctx):
     rule4(ctx, prog, flows, all_sites, review, handled)
     rule6(ctx, prog, flows)
     rule7(ctx, prog, flows, all_sites)
+    rule8(ctx, prog, flows)
     # R-C20-5: recursion inventory
     cg = prog.call_graph()
     rec = [c for c in prog.sccs(set(prog.bodies)) if len(c) > 1 or c[0] in cg.get(c[0], ())]
@@ -323,6 +324,25 @@ def spec_discharge(prog, flows, guards, body, site_bb, field, value, depth=0, se
             return None
         why.append("%s: %s" % (cb.short.split("::")[-1], r))
     return "all %d call sites: %s" % (len(callers), "; ".join(sorted(set(why)))[:300])
+
+
+def rule8(ctx, prog, flows):
+    """the reviewed reason for Louvain's get_edge(..).unwrap() sites is `the working graph is single-edge because
+    convert_graph passes multi-edge inputs through to_single_edges()`; that holds only if EVERY graph to_single_edges
+    returns has specs.multi_edges == false -- re-checked here on every run"""
+    from props.c15 import single_edges_specs
+
+    ctx.rule("R-C20-8", "every graph returned by to_single_edges is built with specs.multi_edges = false (the premise of the reviewed unwraps of get_edge in Louvain)")
+    b = prog.one("convert::Graph::to_single_edges")
+    fl = flows.of(b)
+    ctor = prog.one("creation::Graph::new_from_nodes_and_edges")
+    calls = [t for t in b.calls() if t.callee and t.callee.target_path(prog) == ctor.path]
+    if not calls:
+        ctx.anchor_lost("R-C20-8", "the constructor call(s) of to_single_edges")
+        return
+    for i, c in enumerate(calls):
+        ok, over = single_edges_specs(b, fl, c)
+        ctx.require(ok, "R-C20-8", "specs|%d" % i, "the result is built with the source's specs and multi_edges = false", "to_single_edges can return a graph whose specs still say multi_edges = true (overrides %s): Louvain's working graph is then a multigraph and its get_edge(..).unwrap() panics with WrongMethod" % over, loc_str(c.span))
 
 
 def rule7(ctx, prog, flows, all_sites):
